@@ -66,6 +66,7 @@ let find_sub (s : string) (sub : string) : int option =
   let rec go i = if i + m > n then None else if String.sub s i m = sub then Some i else go (i + 1) in go 0
 let classify_panic (who : string) (msg : string) : string =
   if contains msg "index_out_of_range_[-1]" then who ^ "-panics-empty-short-key"
+  else if contains msg "interface_conversion" then who ^ "-panics-type-assertion"   (* (v.Val).(valueNode) on a non-value *)
   else begin
     (* index_out_of_range_[K]_with_length_K : path[index] one past the end of the path *)
     let key_longer =
@@ -290,4 +291,16 @@ let handle fields impl : string option * string list =
   | _ -> (Some "driver: unknown line", [])
 
 (* Util.norm collapses observables starting with "err"; ours start with "v:" so the comparison is exact *)
+(* The shape check of the decoder's output (wf_node / is_top: hypotheses of C13_total and of the uniqueness theorems) is a
+   check of the CORRESPONDENCE (the decoder left the shape the model assumes), not a violation of the property on that
+   input: it is reported as a difference (model observable marked), so that a concrete violating input found in the same
+   run (e.g. a validator panic on such a node) is what the replay shows. *)
+let handle fields impl =
+  let (m, mons) = handle fields impl in
+  let is_wf x = starts x "decoder-output-not-wellformed" in
+  if List.exists is_wf mons then
+    ((match m with Some x -> Some (x ^ " !decoder-output-not-wellformed") | None -> Some "!decoder-output-not-wellformed"),
+     List.filter (fun x -> not (is_wf x)) mons)
+  else (m, mons)
+
 let () = Util.run handle
